@@ -291,9 +291,19 @@ def h_multidb_bound(tid: bytes, form: str) -> None:
             assume(tid < b'\xff' * 8)
             bound = succ(tid)
             kw = dict(at=tid)
-        assume(bound <= succ(last1))                 # legal for the primary (future bounds: harness bound)
         assume(bound > m1.txns[0].tid)               # the primary's root exists
-        hc = w.db['one'].open(w.transaction.TransactionManager(), **kw)
+        # "a point later than the newest transaction is refused": judged against the database that is opened, whatever
+        # newer transactions the other databases of the multi-database hold
+        future = bound > succ(last1)
+        try:
+            hc = w.db['one'].open(w.transaction.TransactionManager(), **kw)
+            opened = True
+        except ValueError:
+            opened = False
+        check(opened == (not future), 'multi-database: future bound accepted / legal historical bound refused', last1)
+        if not opened:
+            reached()
+            return
         sec = hc.get_connection('two')
         with untraced():
             oids = m2.oids()
